@@ -10,7 +10,7 @@ import os
 
 import vlib
 
-PROPS = ['Rangers.Props.C14']
+PROPS = ['Rangers.Props.C14', 'Rangers.Props.C14E', 'Rangers.Props.C14U']
 DRIVERS = ['C14']
 META = dict(
     level='proof',
